@@ -368,8 +368,9 @@ def plan(tier):
 def tasks(tier):
     out = []
     for shape, eapi, full, idxs in plan(tier):
-        for i in range(0, len(idxs), CHUNK):
-            out.append((shape, eapi, full, idxs[i : i + CHUNK]))
+        chunk = CHUNK if tier == "quick" else 4 * CHUNK  # one daemon spawn per task
+        for i in range(0, len(idxs), chunk):
+            out.append((shape, eapi, full, idxs[i : i + chunk]))
     return out
 
 
